@@ -24,7 +24,18 @@ def _c04_extra(results):
 CFG = {
     "module": "Swat4.Properties.C04",
     "theorems": [
+        "Swat4.C04.reply_bytes",
+        "Swat4.C04.challenge_reply",
+        "Swat4.C04.available_reply",
+        "Swat4.C04.keepalive_silent",
+        "Swat4.C04.keepalive_owner_refreshes",
+        "Swat4.C04.removal_silent",
+        "Swat4.C04.parse_encodeHeartbeat",
+        "Swat4.C04.heartbeat_refines",
+        "Swat4.C04.step_refines",
+        "Swat4.C04.history_is_fold",
         "Swat4.C04.facts_ok",
+        "Swat4.C04.msg_facts",
     ],
     "shards": (4, 16),
     "nontrivial": _c04_nontrivial,
